@@ -1,6 +1,7 @@
 (* Judge for C08 (client-built requests). *)
 From Coq Require Import ZArith NArith String List Bool.
-From Sidetree Require Import Json.Json Sidetree.Protocol Sidetree.Composer Sidetree.Applier Harness.Runner Harness.PatchCases Harness.Hist.
+From Sidetree Require Import Base.Hex Json.Json Sidetree.Protocol Sidetree.Composer Sidetree.Parser Sidetree.Applier Sidetree.ClientCreate Sidetree.ClientUpdate
+     Sidetree.ClientDeactivateRecover Sidetree.ClientWindowed Sidetree.ClientWindowedDR Harness.Runner Harness.PatchCases Harness.Hist.
 Import ListNotations.
 Open Scope string_scope.
 
@@ -8,7 +9,21 @@ Inductive c08case :=
 | mk_c08 (h : hcase) (exp_docs : list obj) (exp_doc : obj) (exp_update_c exp_recovery_c : string) (exp_deactivated : bool) (exp_origin : json)
          (all_built all_parsed anchored_ok : bool)
 | mk_c08refuse (code : nat) (impl_refused expect_refuse : bool)
-| mk_c08conc (as_sequential : bool).
+| mk_c08conc (as_sequential : bool)
+(* the builder models run on the builders' inputs: the request bytes (or the refusal) must be the implementation's *)
+| mk_c08b_create (i : create_info) (impl : option string)
+| mk_c08b_update (i : update_info) (f u : Z) (impl : option string)
+| mk_c08b_deactivate (i : deactivate_info) (f u : Z) (impl : option string)
+| mk_c08b_recover (i : recover_info) (f u : Z) (impl : option string).
+
+Definition opt_str_eqb (a b : option string) : bool :=
+  match a, b with
+  | Some x, Some y => String.eqb x y
+  | None, None => true
+  | _, _ => false
+  end.
+
+Definition in_window_domain (z : Z) : bool := andb (0 <=? z)%Z (z <? 10 ^ 15)%Z.
 
 (* null, [] and absent members are the same request ("no keys") *)
 Definition doc_norm (d : obj) : obj :=
@@ -63,4 +78,15 @@ Definition judge_c08 (c : c08case) : verdict :=
       (* independent DIDs built and parsed by several goroutines at once: every request as built
          sequentially from the same input, every request accepted *)
       if same then Pass else SpecFail 40
+  | mk_c08b_create i impl =>
+      if opt_str_eqb (option_map (fun x => fst (fst x)) (build_create i)) impl then Pass else Mismatch 50
+  | mk_c08b_update i f u impl =>
+      if negb (andb (in_window_domain f) (in_window_domain u)) then OutOfDomain 51
+      else if opt_str_eqb (option_map (fun x => fst (fst x)) (build_update_w i f u)) impl then Pass else Mismatch 51
+  | mk_c08b_deactivate i f u impl =>
+      if negb (andb (in_window_domain f) (in_window_domain u)) then OutOfDomain 52
+      else if opt_str_eqb (build_deactivate_w i f u) impl then Pass else Mismatch 52
+  | mk_c08b_recover i f u impl =>
+      if negb (andb (in_window_domain f) (in_window_domain u)) then OutOfDomain 53
+      else if opt_str_eqb (option_map (fun x => fst (fst x)) (build_recover_w i f u)) impl then Pass else Mismatch 53
   end.
